@@ -108,7 +108,7 @@ AdmissibleStep(ctx, mayDot, ab, X) ==
         Ok(c)  == ReadsAs(c, ab, X) /\ ValidIn(ctx, c)
         base   == {c \in {plain, dotted} :
                      /\ Ok(c)
-                     /\ (c = dotted /\ ~mayDot) => (~Ok(plain) /\ NeedsShield(DropLeadDot(X)))}
+                     /\ (c = dotted /\ ~mayDot) => (NeedsShield(DropLeadDot(X)) /\ (~Ok(plain) \/ ctx.kind = "path"))}
         \* an empty path under an authority may read "" or "/"
         empties == IF DropLeadDot(X) = <<>> /\ ctx.authority # NULL THEN {<<>>, <<cSLASH>>} ELSE {}
     IN  base \cup {c \in empties : ValidIn(ctx, c)}
